@@ -727,6 +727,11 @@ def rule_hooks_pass_values_through(repo: Repo, rep, rule: str = "R16.16") -> Non
                 body_nodes = list(ast.walk(owner))
                 rebound = [st for st in body_nodes if isinstance(st, (ast.Assign, ast.AugAssign, ast.AnnAssign)) and any(
                     isinstance(t, ast.Name) and params and t.id == params[0] for t in (st.targets if isinstance(st, ast.Assign) else [st.target]))]
+                # an alias of the parameter (`payload = d` ... `fn(payload, t)`) is the parameter
+                if isinstance(a0, ast.Name) and params and a0.id != params[0]:
+                    al = [st.value for st in body_nodes if isinstance(st, ast.Assign) and any(isinstance(t, ast.Name) and t.id == a0.id for t in st.targets)]
+                    if al and all(isinstance(v, ast.Name) and v.id == params[0] for v in al):
+                        a0 = ast.Name(id=params[0], ctx=ast.Load())
                 if isinstance(a0, ast.Name) and params and a0.id == params[0] and not rebound:
                     rep.ok(rule, sub, f"`{a0.id}` is handed on as received", fn.loc(c))
                 else:
